@@ -320,6 +320,28 @@ def checkValid (strict : Bool) (now : Nat) (b : Bundle) : Bool :=
   (!(b.primary.tsTime == 0) || hasType tAge b.blocks) &&
   !lifetimeExceeded now b
 
+
+/-! ### Fragmentation: what a fragment is made of (sizes are the subject of C09) -/
+
+/-- The bundle `Bundle.Fragment` assembles for one payload slice: the primary block with the fragment
+flag, offset and total length; the extension blocks in their order with their numbers — all of
+them in the first fragment, only the replicated ones in the others; the payload block (number,
+flags, CRC type of the original) with the slice. -/
+def fragmentOf (b : Bundle) (first : Bool) (off total : Nat) (slice : Bytes) : Bundle :=
+  { primary := { b.primary with flags := b.primary.flags ||| 2 ^ bIsFragment, fragOff := off, total := total }
+    blocks :=
+      b.blocks.filter (fun c => c.typeCode != tPayload && (first || has c.flags kReplicate)) ++
+      (match b.blocks.find? (fun c => c.typeCode == tPayload) with
+       | some p => [{ p with value := .payload slice }]
+       | none => []) }
+
+/-- One iteration of the loop of `Bundle.Fragment`: the fragment is handed out only if
+`fragBundle.CheckValid()` passes — in every iteration (`Gen.C02.fragmentChecksEveryFragment`). -/
+def fragmentChecked (strict : Bool) (now : Nat) (b : Bundle) (first : Bool) (off total : Nat)
+    (slice : Bytes) : Option Bundle :=
+  if checkValid strict now (fragmentOf b first off total slice) then
+    some (fragmentOf b first off total slice) else none
+
 /-! ### Parsing -/
 
 /-- `fmt.Errorf("…: %v", err)`: the identity of the inner error is lost (in particular it is no
